@@ -194,6 +194,8 @@ def run(ctx, res):
             res.count('over_100_terminals')
         if 'error' in m:
             raise InfraError('driver: %s' % m['error'])
+        if not m.get('agree', True):
+            res.corr_break('driver: lexBasic differs from the emitted pieces of lexAllPieces (the function the tiling theorem is about)', {'grammar': g, 'text': text})
         got = rec[mode]
         mt_, me = m['toks'], m['err']
         if mode == 'ctx' and got['parser_stopped']:
